@@ -15,6 +15,8 @@ enum Ev {
     SetFail,
     /// the next connection attempts succeed
     SetOk,
+    /// the next connection attempts never answer (only scripts with Endpoint::connect_timeout)
+    SetHang,
     /// the peer drops the established connection
     Drop,
     /// issue a unary call
@@ -100,6 +102,10 @@ fn body(c: &Case, ch: &Chooser) -> Outcome {
                         *st.mode.lock().unwrap() = ConnectMode::Fail;
                         m_mode = ConnectMode::Fail;
                     }
+                    Ev::SetHang => {
+                        *st.mode.lock().unwrap() = ConnectMode::Hang;
+                        m_mode = ConnectMode::Hang;
+                    }
                     Ev::SetOk => {
                         *st.mode.lock().unwrap() = ConnectMode::Succeed;
                         m_mode = ConnectMode::Succeed;
@@ -144,6 +150,7 @@ fn body(c: &Case, ch: &Chooser) -> Outcome {
                                 m_connected = true;
                                 m_trace.push(Obs::CallOk);
                             } else {
+                                // Fail, or Hang ended by the connect timeout
                                 m_trace.push(Obs::CallUnavailable);
                             }
                         }
@@ -157,7 +164,7 @@ fn body(c: &Case, ch: &Chooser) -> Outcome {
     });
     drop(rt);
     let mut o = Outcome::new(format!("trace={trace:?} connector_invocations={invocations}"));
-    o.nontrivial = c.script.iter().any(|e| *e == Ev::Drop || *e == Ev::SetFail || *e == Ev::CallZero) && c.script.contains(&Ev::Call);
+    o.nontrivial = c.script.iter().any(|e| *e == Ev::Drop || *e == Ev::SetFail || *e == Ev::SetHang || *e == Ev::CallZero) && c.script.contains(&Ev::Call);
     for (i, (got, want)) in trace.iter().zip(&model_trace).enumerate() {
         if got != want {
             let key = match (got, want) {
@@ -190,7 +197,7 @@ fn scripts(maxlen: usize) -> Vec<Vec<Ev>> {
             for a in alpha {
                 // canonical form: no two mode settings in a row, no Drop right after Drop
                 if let Some(last) = s.last() {
-                    let is_set = |e: &Ev| matches!(e, Ev::SetFail | Ev::SetOk);
+                    let is_set = |e: &Ev| matches!(e, Ev::SetFail | Ev::SetOk | Ev::SetHang);
                     if (is_set(last) && is_set(&a)) || (*last == Ev::Drop && a == Ev::Drop) {
                         continue;
                     }
@@ -225,10 +232,40 @@ pub fn property(tier: Tier) -> Property {
             }
         }
     }
+    // scripts with a connector that never answers: only meaningful with Endpoint::connect_timeout
+    {
+        let alpha = [Ev::Call, Ev::SetHang, Ev::SetOk, Ev::SetFail, Ev::Drop];
+        let mut frontier: Vec<Vec<Ev>> = vec![vec![]];
+        let mut all: Vec<Vec<Ev>> = vec![];
+        for _ in 0..tier.q(4, 6) {
+            let mut next = vec![];
+            for s in &frontier {
+                for a in alpha {
+                    if let Some(last) = s.last() {
+                        let is_set = |e: &Ev| matches!(e, Ev::SetFail | Ev::SetOk | Ev::SetHang);
+                        if (is_set(last) && is_set(&a)) || (*last == Ev::Drop && a == Ev::Drop) {
+                            continue;
+                        }
+                    }
+                    let mut t = s.clone();
+                    t.push(a);
+                    next.push(t);
+                }
+            }
+            all.extend(next.iter().cloned());
+            frontier = next;
+        }
+        all.retain(|s| s.last() == Some(&Ev::Call) && s.contains(&Ev::SetHang));
+        for (i, script) in all.into_iter().enumerate() {
+            for lazy in [true, false] {
+                cases.push(Case { lazy, initial: ConnectMode::Succeed, delayed: i % 2 == 0, chop: [0, 2, 3][i % 3], timeouts: true, script: script.clone() });
+            }
+        }
+    }
     let sec = Section::new(
         "fault-scripts",
         Config { hang_secs: 60, ..Default::default() },
-        "cases: every event script up to length 6 (thorough 9) over {call, call with an already expired deadline (own outcome unjudged), connector-starts-failing, connector-starts-succeeding, peer-drops-the-established-connection} (canonical: no repeated mode settings/drops, ending in a call) x lazy/eager channel x initial connector mode x {immediate / Pending-once connector, pipe fragmentation pattern, Endpoint timeouts}; real Endpoint::connect_with_connector[_lazy] -> Channel -> hyper/h2 over in-memory pipes -> Server::serve_with_incoming in virtual time, each event followed by quiescence; RefChannel (connected?, mode) stepped in lock-step: eager initial failure => connect error at once; call while connected => answer; call while disconnected => exactly one connector invocation, UNAVAILABLE to that call only if it fails, success if it succeeds; never a hang (virtual horizon) or panic; connector invocation count equals the model's. Non-trivial = script contains a fault (drop / failing mode) and a call.",
+        "cases: every event script up to length 6 (thorough 9) over {call, call with an already expired deadline (own outcome unjudged), connector-starts-failing, connector-starts-succeeding, peer-drops-the-established-connection} (canonical: no repeated mode settings/drops, ending in a call) (plus scripts with a connector that never answers, ended only by Endpoint::connect_timeout) x lazy/eager channel x initial connector mode x {immediate / Pending-once connector, pipe fragmentation pattern, Endpoint timeouts}; real Endpoint::connect_with_connector[_lazy] -> Channel -> hyper/h2 over in-memory pipes -> Server::serve_with_incoming in virtual time, each event followed by quiescence; RefChannel (connected?, mode) stepped in lock-step: eager initial failure => connect error at once; call while connected => answer; call while disconnected => exactly one connector invocation, UNAVAILABLE to that call only if it fails, success if it succeeds; never a hang (virtual horizon) or panic; connector invocation count equals the model's. Non-trivial = script contains a fault (drop / failing mode) and a call.",
         cases,
         |c: &Case| format!("lazy={} initial={:?} delayed={} chop={} timeouts={} script={:?}", c.lazy, c.initial, c.delayed, c.chop, c.timeouts, c.script),
         body,
